@@ -135,7 +135,7 @@ Fixpoint wft (t : ty) : bool :=
   | TFix e n => wft e && (1 <=? n)
   | TVar e n => wft e && (1 <=? n) && (bitlen n <=? 64)
   | TStruct _ fs => all_fields_ok wft fs
-  | TUnion _ fs => all_fields_ok wft fs && (2 <=? Z.of_nat (length fs))
+  | TUnion _ fs => all_fields_ok wft fs && (2 <=? Z.of_nat (length fs)) && (bitlen (Z.of_nat (length fs) - 1) <=? 64)
   | TDelim i ext =>
       wft i && (match i with TStruct _ _ | TUnion _ _ => true | _ => false end)
       && (ext mod align i =? 0) && (extent i <=? ext)
